@@ -43,6 +43,8 @@ func newInstance(kind string, n int) *instance {
 		in.r = NewSimRouter(in.env, RouterOpts{Name: name, Lock: true})
 	case "trouter":
 		in.r = NewSimRouter(in.env, RouterOpts{Name: name, Trace: true})
+	case "irouter": // same rule names, but here they are interceptors
+		in.r = NewSimRouter(in.env, RouterOpts{Name: name, Interceptors: []string{"digit", "word"}})
 	case "hosts":
 		in.hosts = mux.NewHosts(false)
 	case "group":
@@ -110,7 +112,7 @@ func (in *instance) do(op *Op) (out string) {
 	return "n/a"
 }
 
-var isoPats = []string{"/a", "/b/{id}", "/c/{id:\\d+}", "/a/b", "/d", "/e", "/f", "/g", "/b/{id}/x"}
+var isoPats = []string{"/a", "/b/{id}", "/c/{id:\\d+}", "/a/b", "/d", "/e", "/f", "/g", "/b/{id}/x", "/w/{id:digit}", "/w/{name:word}/y"}
 
 func genInstanceScript(r *Rng, kind string, t int, n int) []Op {
 	var ops []Op
@@ -142,7 +144,7 @@ func genInstanceScript(r *Rng, kind string, t int, n int) []Op {
 		case k < 7:
 			op.K = "routes"
 		default:
-			p, _ := ParsePattern(pick(r, isoPats), nil)
+			p, _ := ParsePattern(pick(r, isoPats), []string{"digit", "word"})
 			path, _ := p.Witness(r)
 			op.K = "req"
 			op.Req = &Req{Method: pick(r, []string{"GET", "POST", "OPTIONS", "HEAD", "BOGUS"}), Path: path}
@@ -165,7 +167,7 @@ func genC07(r *Rng, idx int, tier string) *World {
 		n := r.Range(2, 3)
 		var kinds []string
 		for t := 0; t < n; t++ {
-			kind := pick(r, []string{"router", "router", "lrouter", "trouter", "hosts", "group"})
+			kind := pick(r, []string{"router", "router", "lrouter", "trouter", "irouter", "hosts", "group"})
 			kinds = append(kinds, kind)
 			w.Tasks = append(w.Tasks, genInstanceScript(r, kind, t, r.Range(2, 6)))
 		}
@@ -204,13 +206,16 @@ func genC07(r *Rng, idx int, tier string) *World {
 		n := r.Range(1, 3)
 		var kinds []string
 		for t := 0; t < n; t++ {
-			kind := pick(r, []string{"router", "trouter", "lrouter", "hosts", "group"})
+			kind := pick(r, []string{"router", "trouter", "lrouter", "irouter", "hosts", "group"})
 			kinds = append(kinds, kind)
 			w.Tasks = append(w.Tasks, genInstanceScript(r, kind, t, r.Range(1, 6)))
 		}
 		w.Extra["kinds"] = strings.Join(kinds, ",")
 		// the observed router R*: recipe + probes
 		w.Opts = RouterOpts{Name: "star", Trace: r.Pct(40), Lock: r.Pct(30)}
+		if r.Pct(40) {
+			w.Opts.Interceptors = []string{"digit"}
+		}
 		hid := 9000
 		for i := r.Range(0, 4); i > 0; i-- {
 			hid++
@@ -235,7 +240,7 @@ func observeStar(w *World) []string {
 	}
 	lines = append(lines, "routes "+routesKey(r.Routes()))
 	for _, raw := range isoPats {
-		p, _ := ParsePattern(raw, nil)
+		p, _ := ParsePattern(raw, []string{"digit", "word"})
 		path, _ := FixedWitness(p)
 		for _, m := range []string{"GET", "POST", "HEAD", "OPTIONS", "BOGUS", "TRACE"} {
 			o := Serve(r, Req{Method: m, Path: path}, nil, nil)
